@@ -87,11 +87,31 @@ def git_list(repo, walk_root):
 ROOTS = [("",), ("sub",), ("", "sub"), ("sub", "")]   # walk roots of ONE resolve() call (the last two: overlapping directory arguments)
 
 
-def fm_list(repo, walk_roots, respect=True):
+# appended later: other spellings of ONE walk root -- the path as typed is not canonical ("..", a symlinked directory, relative to a cwd
+# inside the tree); what git lists does not depend on how the directory was named
+SPELLED = {4: ("sub", "dotdot"), 5: ("", "symlink"), 6: ("sub", "relative"), 7: ("sub", "symlink")}
+
+
+def fm_list(repo, walk_roots, respect=True, spelling=None):
     if isinstance(walk_roots, str):
         walk_roots = (walk_roots,)
     roots = [os.path.join(repo, w) if w else repo for w in walk_roots]
-    res = FileResolver(FileResolverConfig(respect_gitignore=respect)).resolve(roots)
+    old_cwd, link = os.getcwd(), None
+    try:
+        if spelling == "dotdot":
+            roots = [os.path.join(repo, "other", "..", w) for w in walk_roots]
+        elif spelling == "relative":
+            os.chdir(os.path.join(repo, "other"))
+            roots = [os.path.join("..", w) for w in walk_roots]
+        elif spelling == "symlink":
+            link = repo.rstrip("/") + "-link"
+            os.symlink(repo, link)
+            roots = [os.path.join(link, w) if w else link for w in walk_roots]
+        res = FileResolver(FileResolverConfig(respect_gitignore=respect)).resolve(roots)
+    finally:
+        os.chdir(old_cwd)
+        if link:
+            os.unlink(link)
     real = os.path.realpath(repo)
     return sorted(os.path.relpath(str(p), real) for p in res)
 
@@ -123,7 +143,7 @@ class Git(Space):
         # (a) one file with 1..2 lines (quick: 2 lines only from reps x all); (b) root x sub pairs; (c) root x sub x deep (reps)
         for d in range(len(IGDIRS)):
             for i in range(n):
-                for root in (0, 1, 2, 3):
+                for root in (0, 1, 2, 3, 4, 5, 6, 7):
                     yield (((d, (i,)),), root)
             second = range(n)
             for i in range(n):
@@ -155,7 +175,7 @@ class Git(Space):
     def describe(self, case):
         files, root = case
         return {"gitignore": {(IGDIRS[d] or ".") + "/.gitignore": [PATS[i] for i in ls] for d, ls in files},
-                "walk_roots": [w or "." for w in ROOTS[root]], "tree": FILES}
+                "walk_roots": [w or "." for w in (ROOTS[root] if root < len(ROOTS) else (SPELLED[root][0],))], "root_spelling": SPELLED[root][1] if root in SPELLED else "absolute", "tree": FILES}
 
     def smaller(self, case):
         files, root = case
@@ -172,13 +192,13 @@ class Git(Space):
     def evaluate(self, case):
         files, root = case
         repo = _repo()
-        walk_roots = ROOTS[root]
+        walk_roots, spelling = (ROOTS[root], None) if root < len(ROOTS) else ((SPELLED[root][0],), SPELLED[root][1])
         rules = {IGDIRS[d]: [PATS[i] for i in ls] for d, ls in files}
         tree = fresh_tree()
         try:
             set_ignores(tree, rules)
-            got = fm_list(tree, walk_roots)
-            nores = fm_list(tree, walk_roots, respect=False)
+            got = fm_list(tree, walk_roots, spelling=spelling)
+            nores = fm_list(tree, walk_roots, respect=False, spelling=spelling)
         finally:
             shutil.rmtree(tree, ignore_errors=True)
         # git: one listing per walk root (ignore files above that root do not count); several roots = the union
